@@ -251,14 +251,176 @@ fn write_container(rt: &tokio::runtime::Runtime, cont: Cont, dir: &Path, name: &
 }
 
 // ---------------------------------------------------------------------------------------------
+// a minimal HTTP range server (the upstream of a remote container) that can answer one chosen request with 503
+
+pub struct Upstream {
+	pub port: u16,
+	/// index (in arrival order) of the request to answer with 503; negative = none
+	pub fail_at: Arc<std::sync::atomic::AtomicI64>,
+	pub served: Arc<std::sync::atomic::AtomicU64>,
+}
+
+impl Upstream {
+	pub fn start(data: Vec<u8>) -> Upstream {
+		use std::sync::atomic::{AtomicI64, AtomicU64, Ordering};
+		let listener = std::net::TcpListener::bind("127.0.0.1:0").expect("bind upstream");
+		let port = listener.local_addr().unwrap().port();
+		let fail_at = Arc::new(AtomicI64::new(-1));
+		let served = Arc::new(AtomicU64::new(0));
+		let data = Arc::new(data);
+		let (fa, sv) = (fail_at.clone(), served.clone());
+		std::thread::spawn(move || {
+			for conn in listener.incoming() {
+				let Ok(mut c) = conn else { continue };
+				let (data, fa, sv) = (data.clone(), fa.clone(), sv.clone());
+				std::thread::spawn(move || {
+					let mut buf: Vec<u8> = vec![];
+					loop {
+						// read one request head
+						let head_end = loop {
+							if let Some(p) = buf.windows(4).position(|w| w == b"\r\n\r\n") {
+								break Some(p + 4);
+							}
+							let mut tmp = [0u8; 4096];
+							match c.read(&mut tmp) {
+								Ok(0) | Err(_) => break None,
+								Ok(n) => buf.extend_from_slice(&tmp[..n]),
+							}
+						};
+						let Some(he) = head_end else { return };
+						let head = String::from_utf8_lossy(&buf[..he]).to_string();
+						buf.drain(..he);
+						let idx = sv.fetch_add(1, Ordering::SeqCst) as i64;
+						let range = head.lines().find_map(|l| l.to_ascii_lowercase().strip_prefix("range: bytes=").map(|r| r.trim().to_string()));
+						let resp: Vec<u8> = if idx == fa.load(Ordering::SeqCst) {
+							b"HTTP/1.1 503 Service Unavailable\r\nContent-Length: 0\r\n\r\n".to_vec()
+						} else if let Some((a, b)) = range.as_deref().and_then(|r| r.split_once('-')).and_then(|(a, b)| Some((a.parse::<usize>().ok()?, b.parse::<usize>().ok()?))) {
+							if a <= b && b < data.len() {
+								let mut r = format!("HTTP/1.1 206 Partial Content\r\nContent-Range: bytes {a}-{b}/{}\r\nContent-Length: {}\r\nAccept-Ranges: bytes\r\n\r\n", data.len(), b - a + 1).into_bytes();
+								r.extend_from_slice(&data[a..=b]);
+								r
+							} else {
+								b"HTTP/1.1 416 Range Not Satisfiable\r\nContent-Length: 0\r\n\r\n".to_vec()
+							}
+						} else {
+							let mut r = format!("HTTP/1.1 200 OK\r\nContent-Length: {}\r\nAccept-Ranges: bytes\r\n\r\n", data.len()).into_bytes();
+							r.extend_from_slice(&data);
+							r
+						};
+						if c.write_all(&resp).is_err() {
+							return;
+						}
+					}
+				});
+			}
+		});
+		Upstream { port, fail_at, served }
+	}
+}
+
+/// C05 over a remote container: for every position k of one upstream request (after start-up) that is answered
+/// with 503, the server - once the upstream is healthy again - must serve every stored tile.
+fn c05_remote(ctx: &Arc<Ctx>, work: &Path, rt: &tokio::runtime::Runtime) {
+	use std::sync::atomic::Ordering;
+	let stored: Vec<Key> = vec![(0, 0, 0), (3, 1, 2), (3, 7, 7), (9, 255, 256), (9, 300, 300), (14, 8800, 5370)];
+	let tiles: TileMap = stored.iter().map(|k| (*k, codec::encode_with(1, &content_of(*k)))).collect();
+	let mut src = MemSource::new("m", tiles, TileFormat::PBF, TileCompression::Gzip);
+	let file = match write_container(rt, Cont::Versatiles, work, "remote", &mut src) {
+		Ok(f) => f,
+		Err(e) => {
+			eprintln!("MACHINERY: cannot write the remote container: {e}");
+			std::process::exit(2);
+		}
+	};
+	let up = Upstream::start(std::fs::read(work.join(&file)).unwrap());
+	let arg = format!("[rem]http://127.0.0.1:{}/remote.versatiles", up.port);
+	let script = |cl: &mut Client, judge: bool, k: i64| {
+		for key in stored.iter().chain([(9u8, 1u32, 1u32)].iter()) {
+			let target = format!("/tiles/rem/{}/{}/{}", key.0, key.1, key.2);
+			let reply = cl.request(&target, &[("Accept-Encoding", "gzip")]).unwrap_or_else(Reply::Dropped);
+			if !judge {
+				continue;
+			}
+			ctx.eval();
+			ctx.transition(1);
+			let case = json!({"mode": "remote upstream", "fault_at_upstream_request": k, "target": target});
+			let held = stored.contains(key);
+			match reply {
+				Reply::Dropped(why) => ctx.violation("tile request is answered by a dropped connection (remote versatiles, after a transient upstream fault)", &format!("fault at upstream request {k}: GET {target}: {why}"), case),
+				Reply::Response(r) => {
+					if held {
+						if r.status != 200 {
+							ctx.violation("stored tile is not served with status 200 after a transient upstream fault", &format!("one 503 from the upstream at its request #{k}; afterwards GET {target}: status {}", r.status), case);
+						} else if decode_body(&r).ok().as_deref() != Some(&content_of(*key)[..]) {
+							ctx.violation("served body, decoded by Content-Encoding, differs from the stored tile after a transient upstream fault", &format!("fault at upstream request {k}: GET {target}"), case);
+						}
+					} else if r.status != 404 {
+						ctx.violation(&format!("request for a coordinate without tile is answered with status {}", r.status), &format!("remote source, fault at upstream request {k}: GET {target}"), case);
+					}
+				}
+			}
+		}
+	};
+	// fault-free run: how many upstream requests does start-up take, how many the script?
+	up.fail_at.store(-1, Ordering::SeqCst);
+	up.served.store(0, Ordering::SeqCst);
+	let (n0, n) = match Server::start(work, &[arg.clone()], "c05remote") {
+		Ok(server) => {
+			let n0 = up.served.load(Ordering::SeqCst);
+			let mut cl = Client::connect(server.port).expect("connect");
+			script(&mut cl, true, -1);
+			let n = up.served.load(Ordering::SeqCst);
+			drop(server);
+			(n0, n)
+		}
+		Err(e) => {
+			ctx.outcome(&format!("remote source: server does not start against the local upstream ({})", e.chars().take(80).collect::<String>()));
+			return;
+		}
+	};
+	let mut explored = 0u64;
+	for k in n0..n {
+		up.served.store(0, Ordering::SeqCst);
+		up.fail_at.store(k as i64, Ordering::SeqCst);
+		let Ok(server) = Server::start(work, &[arg.clone()], &format!("c05remote{k}")) else { continue };
+		let mut cl = Client::connect(server.port).expect("connect");
+		script(&mut cl, false, k as i64); // the run that meets the fault: not judged
+		if up.served.load(Ordering::SeqCst) <= k {
+			ctx.outcome("remote source: the faulty position was not reached (fewer upstream requests than in the fault-free run)");
+		}
+		script(&mut cl, true, k as i64); // upstream healthy again
+		drop(server);
+		explored += 1;
+		ctx.nontrivial(fnv_str(&format!("remote-fault-{k}")));
+	}
+	ctx.extra("remote_upstream", json!({"upstream_requests_at_startup": n0, "upstream_requests_of_the_script": n - n0, "fault_positions_explored": explored}));
+	ctx.state(explored);
+}
+
+// ---------------------------------------------------------------------------------------------
 // C05
 
 /// the one coordinate at which the directory and tar sources hold a zero-length tile
 const EMPTY_TILE: Key = (3, 5, 5);
 
+/// tiles of 1 MiB, 4 MiB + 1 and 5 MiB (held by the source `vbig`)
+const BIG_TILES: [(Key, usize); 3] = [((6, 1, 1), 1 << 20), ((6, 2, 1), (4 << 20) + 1), ((6, 3, 1), 5 << 20)];
+/// three tiles of 20 KiB that agree in their first and last 6 KiB (held by the source `vnear`)
+const NEAR_TILES: [Key; 3] = [(7, 1, 1), (7, 2, 1), (7, 3, 1)];
+
 fn content_of(k: Key) -> Vec<u8> {
 	if k == EMPTY_TILE {
 		return vec![];
+	}
+	if let Some((_, len)) = BIG_TILES.iter().find(|b| b.0 == k) {
+		let tag = format!("big tile {}/{}/{} ", k.0, k.1, k.2).into_bytes();
+		return (0..*len).map(|i| tag[i % tag.len()]).collect();
+	}
+	if NEAR_TILES.contains(&k) {
+		let mut v: Vec<u8> = (0..20 * 1024).map(|i| b"shared head and tail of three near-duplicate tiles. "[i % 52]).collect();
+		let mid = format!("<<< the middle of tile {}/{}/{} >>>", k.0, k.1, k.2).into_bytes();
+		v[10_000..10_000 + mid.len()].copy_from_slice(&mid);
+		return v;
 	}
 	let mut v = format!("tile content {}/{}/{} ", k.0, k.1, k.2).into_bytes();
 	let base = v.clone();
@@ -277,7 +439,7 @@ struct TileSrc {
 
 pub fn c05(ctx: Arc<Ctx>) {
 	ctx.rule(
-		"real `versatiles serve` binary (best and --fast) with 12 sources (versatiles x 3 stored compressions x {pbf,png}, mbtiles, pmtiles, two PMTiles archives with leaf directories (2 and 3 entries per leaf) from the independent encoder, a directory and a tar source that also hold a zero-length tile); requests: Accept-Encoding absent + all 32 subsets of {gzip,br,deflate,identity,zstd} + all 20 ordered pairs, x case {lower,UPPER,Mixed} x weights {none,;q=1,;q=0.5} on a stored and an absent coordinate (thorough: every ordered arrangement of every subset = 326 lists x 3 cases x weights {none,;q=1,;q=0.5,;q=0.001,; q=1.0,mixed per token} x separators {', ', ',', ' ,<tab>'}); \
+		"real `versatiles serve` binary (best and --fast) with 12 sources (versatiles x 3 stored compressions x {pbf,png}, mbtiles, pmtiles, two PMTiles archives with leaf directories (2 and 3 entries per leaf) from the independent encoder, a directory and a tar source that also hold a zero-length tile, sources with tiles of 1 MiB / 4 MiB + 1 / 5 MiB stored gzip and brotli, sources with three 20 KiB tiles that agree in head and tail); a versatiles container served from an http upstream that answers exactly one request with 503, for every position of that request after start-up (afterwards every stored tile must be served again); requests: Accept-Encoding absent + all 32 subsets of {gzip,br,deflate,identity,zstd} + all 20 ordered pairs, x case {lower,UPPER,Mixed} x weights {none,;q=1,;q=0.5} on a stored and an absent coordinate (thorough: every ordered arrangement of every subset = 326 lists x 3 cases x weights {none,;q=1,;q=0.5,;q=0.001,; q=1.0,mixed per token} x separators {', ', ',', ' ,<tab>'}); \
 		 coordinate classes (stored, absent in range, x or y = 2^z, 2^32-1, z stored/absent/31/32/255/256, non-numeric parts, empty parts) x extension {none,.png,.pbf,.x} with 3 Accept-Encoding values; every request twice (cold/warm). raw HTTP/1.1 client over keep-alive connections. \
 		 non-trivial = distinct 200 responses whose Content-Encoding differs from the stored compression",
 	);
@@ -329,6 +491,21 @@ pub fn c05(ctx: Arc<Ctx>) {
 		srcs.push(TileSrc { id: "dirsrc".into(), format: TileFormat::PNG, tiles: with_empty.clone(), kind: "directory" });
 		srcs.push(TileSrc { id: "tarsrc".into(), format: TileFormat::PNG, tiles: with_empty, kind: "tar" });
 	}
+	// big tiles (gzip and brotli stored) and near-duplicate tiles (uncompressed stored: the server compresses them itself)
+	for (id, keys, comp) in [("vbig", BIG_TILES.iter().map(|b| b.0).collect::<Vec<Key>>(), 1u8), ("vbigbr", vec![BIG_TILES[1].0], 2), ("vnear", NEAR_TILES.to_vec(), 0), ("vneargz", NEAR_TILES.to_vec(), 1)] {
+		let tiles: TileMap = keys.iter().map(|k| (*k, codec::encode_with(comp, &content_of(*k)))).collect();
+		let mut src = MemSource::new("m", tiles, TileFormat::PBF, ct::comp_from_id(comp));
+		match write_container(&rt, Cont::Versatiles, &work.0, id, &mut src) {
+			Ok(file) => {
+				args.push(format!("[{id}]{file}"));
+				srcs.push(TileSrc { id: id.to_string(), format: TileFormat::PBF, tiles: keys.clone(), kind: "versatiles" });
+			}
+			Err(e) => {
+				eprintln!("MACHINERY: cannot write {id}: {e}");
+				std::process::exit(2);
+			}
+		}
+	}
 	// a source whose tiles are gzip data but which is labelled uncompressed: served with --override-input-compression gzip
 	let ovr_file = {
 		let tiles: TileMap = stored.iter().map(|k| (*k, codec::encode_with(1, &content_of(*k)))).collect();
@@ -339,8 +516,10 @@ pub fn c05(ctx: Arc<Ctx>) {
 	let stored_comp = |id: &str| -> u8 {
 		if id.starts_with("vp") {
 			id[4..].parse().unwrap()
-		} else if id == "mb" || id == "ovr" {
+		} else if id == "mb" || id == "ovr" || id == "vbig" || id == "vneargz" {
 			1
+		} else if id == "vbigbr" {
+			2
 		} else {
 			0
 		}
@@ -484,6 +663,24 @@ pub fn c05(ctx: Arc<Ctx>) {
 					}
 				}
 			};
+			// sources that hold only special tiles: each tile under a few Accept-Encoding values, the near-duplicates one
+			// after the other (what an earlier answer leaves behind in the server must not leak into the next)
+			if !s.tiles.contains(&(3, 1, 2)) {
+				if !matches!(mode, "best" | "fast") {
+					return;
+				}
+				let big = s.tiles.iter().any(|k| BIG_TILES.iter().any(|b| b.0 == *k));
+				let aes: Vec<Option<&str>> = if big { vec![None, Some("gzip"), Some("identity")] } else { vec![Some("gzip"), Some("br"), None, Some("br, gzip")] };
+				for ae in aes {
+					for k in &s.tiles {
+						judge(&format!("/tiles/{}/{}", s.id, tf(*k)), ae.map(|a| a.to_string()), Some(*k), true, false);
+					}
+				}
+				if s.id == "vbig" {
+					judge(&format!("/tiles/{}/{}", s.id, tf(BIG_TILES[0].0)), Some("br".into()), Some(BIG_TILES[0].0), true, false);
+				}
+				return;
+			}
 			// 1. content negotiation on a stored and an absent coordinate
 			for ae in aer.iter() {
 				for case in 0..3u8 {
@@ -568,6 +765,7 @@ pub fn c05(ctx: Arc<Ctx>) {
 	}
 	ctx.sample(json!({"request": "GET /tiles/vpbf2/3/1/2 HTTP/1.1", "accept_encoding": "GZIP;q=0.5, Br;q=0.5", "sources": srcs.iter().map(|s| format!("{} ({}, {:?})", s.id, s.kind, s.format)).collect::<Vec<_>>()}));
 	ctx.extra("accept_encoding_values", json!(aes.len()));
+	c05_remote(&ctx, &work.0, &rt);
 	ctx.exhaustive(true);
 	let _ = (Tier::Quick, &srcs[0].tiles);
 	drop(work);
